@@ -113,6 +113,31 @@ def fam_term():
     return out
 
 
+def repo_programs(repo):
+    """R: the repository's own programs (test/cases, examples, mod_scripts with their libraries).
+    Each item: (name, source or {module: source})."""
+    import glob
+    import os
+    import re
+
+    out = []
+    for f in sorted(glob.glob(os.path.join(repo, "test", "cases", "*.py"))):
+        out.append(("rc_" + os.path.basename(f)[:-3], open(f, encoding="utf-8").read()))
+    for f in sorted(glob.glob(os.path.join(repo, "src", "stationeers_pytrapic", "examples", "*.py"))):
+        if "__init__" in f:
+            continue
+        out.append(("rx_" + os.path.basename(f)[:-3], open(f, encoding="utf-8").read()))
+    for f in sorted(glob.glob(os.path.join(repo, "test", "mod_scripts", "*.py"))):
+        src = open(f, encoding="utf-8").read()
+        mods = {"": src}
+        for m in re.finditer(r"^from library import (\w+)", src, re.M):
+            lf = os.path.join(repo, "test", "mod_libraries", m.group(1) + ".py")
+            if os.path.exists(lf):
+                mods[m.group(1)] = open(lf, encoding="utf-8").read()
+        out.append(("rs_" + os.path.basename(f)[:-3], mods))
+    return out
+
+
 FAMILIES = {
     "branches": fam_branches,
     "loops": fam_loops,
